@@ -1,5 +1,5 @@
-import ProductMD.Proofs.C10Images
-import ProductMD.Proofs.C10Rpms
+import ProductMD.Proofs.C10ImagesRefile
+import ProductMD.Proofs.C10RpmsRefile
 import ProductMD.Properties.C09
 /-!
 # C10 — source content is always filed under binary architectures
@@ -136,5 +136,302 @@ theorem C10_keys_rpms_add (h : List Mf.RpmsArgs) : ∀ a ∈ Mf.archKeys (Mf.run
 theorem C10_keys_rpms_manifest03 (pl s : PyVal) (h : Mf.manifest03 pl = .ok s) : ∀ a ∈ Mf.archKeys s, BinaryArch a :=
   fun a ha => rpms_admissible_binary
     (Mf.manifest03_inv Mf.KeysOK (fun s a hs => Mf.keysOK_add s a hs) h Mf.keysOK_empty a ha)
+
+/-- … in particular the mapping of a manifest loaded from a document whose header version passes the generated gate
+`<= (0, 3)` -/
+theorem C10_keys_rpms_load03 (doc : PyVal) (m : Mf.Manifest) (h : Mf.deserializeL .rpms doc = .ok m)
+    (ver : PyVal) (l : Nat × Nat) (hh : Mf.headerDeserialize .rpms doc = .ok (ver, .nums l))
+    (hg : Mf.gateHolds Gen.gate_rpms_Rpms_deserialize_0 l = true) : ∀ a ∈ Mf.archKeys m.payload, BinaryArch a := by
+  obtain ⟨pl, _, hm⟩ := Mf.deserializeL_legacy doc m h ver l hh hg
+  exact C10_keys_rpms_manifest03 pl m.payload hm
+
+/-- the gate in front of the 0.3 reader is `<= (0, 3)`, the gate in front of `_add_1_1` is `<= (1, 1)` -/
+theorem C10_gates : Gen.gate_rpms_Rpms_deserialize_0 = { op := .le, bound := (0, 3) }
+    ∧ Gen.gate_images_Images_deserialize_0 = { op := .le, bound := (1, 1) } := by decide
+
+/-- **C10_keys**: for every state reachable by `Images.add` / `Rpms.add` from the empty manifest (any op list, any
+arch strings), and for every state obtained by loading any images document (any version) or an rpms document of
+format ≤ 0.3, every arch key is in `Gen.RPM_ARCHES` minus {`src`, `nosrc`} -/
+theorem C10_keys :
+    (∀ (ver : Str) (ops : List Img.AddOp), ∀ a ∈ Img.archKeys (ops.foldl Img.step (Img.empty ver)).cells, BinaryArch a)
+    ∧ (∀ (h : List Mf.RpmsArgs), ∀ a ∈ Mf.archKeys (Mf.runRpms Mf.empty h), BinaryArch a)
+    ∧ (∀ (doc : PyVal) (s : Img.ImgState), Img.loads doc = .ok s → ∀ a ∈ Img.archKeys s.cells, BinaryArch a)
+    ∧ (∀ (doc : PyVal) (m : Mf.Manifest) (ver : PyVal) (l : Nat × Nat), Mf.deserializeL .rpms doc = .ok m →
+         Mf.headerDeserialize .rpms doc = .ok (ver, .nums l) → Mf.gateHolds Gen.gate_rpms_Rpms_deserialize_0 l = true →
+         ∀ a ∈ Mf.archKeys m.payload, BinaryArch a) := by
+  refine ⟨C10_keys_images_add, C10_keys_rpms_add, ?_, fun doc m ver l h hh hg => C10_keys_rpms_load03 doc m h ver l hh hg⟩
+  intro doc s h
+  unfold Img.loads at h
+  obtain ⟨s', hd, h⟩ := Img.bind_ok h
+  obtain ⟨_, _, h⟩ := Img.bind_ok h
+  injection h with h
+  subst h
+  exact C10_keys_images_load doc s' hd
+
+/-! ## what is written back -/
+
+theorem archKeys_toPy (o : Img.OutCells) : Mf.archKeys o.toPy = Img.outArchKeys o := by
+  simp only [Img.OutCells.toPy, Mf.archKeys, Img.outArchKeys, List.flatMap_map]
+  congr 1
+  funext va
+  simp [Mf.dictKeys, List.map_map, Function.comp_def]
+
+/-- **images, written back**: the document `serialize` builds from a loaded manifest has only binary arch keys in
+its image table (`Mf.archKeys` = every key on the second level of the table) -/
+theorem C10_images_written (doc : PyVal) (s : Img.ImgState) (h : Img.deserialize doc = .ok s) (out : PyVal)
+    (hs : (Img.serialize s).2 = .ok out) :
+    ∃ payload tbl, PyOps.item out (L "payload") = .ok payload ∧ PyOps.item payload (L "images") = .ok tbl
+      ∧ ∀ a ∈ Mf.archKeys tbl, BinaryArch a := by
+  obtain ⟨hdr, comp, o, rfl, hk⟩ := Img.serialize_keys s out hs
+  refine ⟨_, o.toPy, rfl, rfl, ?_⟩
+  intro a ha
+  rw [archKeys_toPy] at ha
+  exact C10_keys_images_load doc s h a (hk a ha)
+
+/-- **rpms, written back**: the document written from a manifest converted from format ≤ 0.3 carries the converted
+mapping verbatim: only binary arch keys, no `src` -/
+theorem C10_rpms_written (doc : PyVal) (m : Mf.Manifest) (h : Mf.deserializeL .rpms doc = .ok m)
+    (ver : PyVal) (l : Nat × Nat) (hh : Mf.headerDeserialize .rpms doc = .ok (ver, .nums l))
+    (hg : Mf.gateHolds Gen.gate_rpms_Rpms_deserialize_0 l = true) (out : PyVal) (hs : (Mf.serialize .rpms m).2 = .ok out) :
+    ∃ payload tbl, Mf.getItem out (Mf.lit "payload") = .ok payload ∧ Mf.getItem payload (Mf.lit "rpms") = .ok tbl
+      ∧ (∀ a ∈ Mf.archKeys tbl, BinaryArch a) ∧ L "src" ∉ Mf.archKeys tbl := by
+  obtain ⟨pl, h1, h2⟩ := Mf.serialize_rpms_payload m out hs
+  have hk := C10_keys_rpms_load03 doc m h ver l hh hg
+  exact ⟨pl, m.payload, h1, h2, hk, fun hm => (hk _ hm).2.1 rfl⟩
+
+/-! ## C10_images_refile -/
+
+open PM.Img in
+/-- **exact filing of a document of format ≤ 1.1** (generated gate) whose image table is `O` — any parsed JSON object
+variant ↦ arch ↦ list, i.e. unique keys on both levels.  The k-th image dictionary of the table (iteration order) is
+read as ONE object with identity k, and the filings `(variant, arch, object, attributes)` of the loaded manifest are
+exactly: that object under `(v, b)` for every `b ∈ targets (arch keys of v) a`, where `(v, a)` is where the
+dictionary stood — all arch keys of `v` other than `src` when `a = src`, `a` itself otherwise. -/
+theorem C10_images_refile (doc : PyVal) (s : ImgState) (h : Img.deserialize doc = .ok s)
+    (ver : PyVal) (hver : Img.headerDeserialize doc = .ok ver) (vt : VerT) (hvt : Img.versionTuple ver = .ok vt)
+    (hold : gateEval Gen.gate_images_Images_deserialize_0 vt = .ok true)
+    (payload : PyVal) (hp : PyOps.item doc (L "payload") = .ok payload) (O : OutCells) (hO : OutNodup O)
+    (himg : PyOps.item payload (L "images") = .ok O.toPy) :
+    ∀ v b k img, (v, b, k, img) ∈ entries s.cells ↔
+      ∃ a d as, (outTriples O)[k]? = some (v, a, d) ∧ Image.deserialize ver d = .ok img ∧ (v, as) ∈ O
+        ∧ b ∈ targets (as.map (·.1)) a := by
+  unfold Img.deserialize at h
+  obtain ⟨ver', hver', hA⟩ := bind_ok h
+  rw [hver] at hver'; injection hver' with hver'; subst hver'
+  obtain ⟨payload', hp', hB⟩ := bind_ok hA
+  rw [hp] at hp'; injection hp' with hp'; subst hp'
+  obtain ⟨comp, _, hC⟩ := bind_ok hB
+  obtain ⟨images, himg', hD⟩ := bind_ok hC
+  rw [himg] at himg'; injection himg' with himg'; subst himg'
+  obtain ⟨vs, hvs, hE⟩ := bind_ok hD
+  have e3 : PyOps.iter O.toPy = .ok (O.map fun va => .str va.1) := by
+    simp [toPy_eq, PyOps.iter, List.map_map, Function.comp_def]
+  rw [e3] at hvs; injection hvs with hvs; subst hvs
+  obtain ⟨r, hl, hF⟩ := bind_ok hE
+  obtain ⟨s1, n⟩ := r
+  injection hF with hF
+  have hcells : s.cells = s1.cells := by rw [← hF]
+  rw [hcells]
+  exact load_old_files ver vt hvt hold O hO _ rfl (s1, n) hl
+
+theorem mem_unique {β : Type} {l : List (Str × β)} (hn : (l.map (·.1)).Nodup) {k : Str} {x y : β} (hx : (k, x) ∈ l) (hy : (k, y) ∈ l) :
+    x = y := by
+  have h1 := Img.find_key (fun b : β => b) l k x hn hx
+  have h2 := Img.find_key (fun b : β => b) l k y hn hy
+  rw [h1] at h2
+  injection h2 with h2
+  injection h2
+
+open PM.Img in
+/-- **the property's words**: for a ≤ 1.1 document and a variant `v` with arch keys `as`, the image read from the
+k-th dictionary, standing under `(v, src)`, is filed under `(v, b)` for EVERY arch key `b ≠ src` of `v` — the same
+object in each — and nowhere else: not under another variant, not under `src` -/
+theorem C10_images_refile_src (doc : PyVal) (s : ImgState) (h : Img.deserialize doc = .ok s)
+    (ver : PyVal) (hver : Img.headerDeserialize doc = .ok ver) (vt : VerT) (hvt : Img.versionTuple ver = .ok vt)
+    (hold : gateEval Gen.gate_images_Images_deserialize_0 vt = .ok true)
+    (payload : PyVal) (hp : PyOps.item doc (L "payload") = .ok payload) (O : OutCells) (hO : OutNodup O)
+    (himg : PyOps.item payload (L "images") = .ok O.toPy)
+    (v : Str) (as : List (Str × List PyVal)) (hv : (v, as) ∈ O) (k : Nat) (d : PyVal)
+    (hk : (outTriples O)[k]? = some (v, L "src", d)) (img : Image) (hd : Image.deserialize ver d = .ok img) :
+    ∀ v' b img', (v', b, k, img') ∈ entries s.cells ↔ (v' = v ∧ img' = img ∧ b ∈ as.map (·.1) ∧ b ≠ L "src") := by
+  intro v' b img'
+  rw [C10_images_refile doc s h ver hver vt hvt hold payload hp O hO himg]
+  constructor
+  · rintro ⟨a', d', as', hk', hd', hv', hb⟩
+    rw [hk] at hk'
+    injection hk' with hk'
+    injection hk' with e1 hk'
+    injection hk' with e2 e3
+    subst e1 e2 e3
+    rw [hd] at hd'; injection hd' with hd'
+    have := mem_unique hO.1 hv hv'
+    subst this
+    simp only [targets, ↓reduceIte, List.mem_filter, decide_eq_true_eq] at hb
+    exact ⟨rfl, hd'.symm, hb.1, hb.2⟩
+  · rintro ⟨rfl, rfl, hb1, hb2⟩
+    refine ⟨L "src", d, as, hk, hd, hv, ?_⟩
+    simp only [targets, ↓reduceIte, List.mem_filter, decide_eq_true_eq]
+    exact ⟨hb1, hb2⟩
+
+open PM.Img in
+/-- … and an image that did not stand under `src` is filed in its own cell and nowhere else -/
+theorem C10_images_refile_other (doc : PyVal) (s : ImgState) (h : Img.deserialize doc = .ok s)
+    (ver : PyVal) (hver : Img.headerDeserialize doc = .ok ver) (vt : VerT) (hvt : Img.versionTuple ver = .ok vt)
+    (hold : gateEval Gen.gate_images_Images_deserialize_0 vt = .ok true)
+    (payload : PyVal) (hp : PyOps.item doc (L "payload") = .ok payload) (O : OutCells) (hO : OutNodup O)
+    (himg : PyOps.item payload (L "images") = .ok O.toPy)
+    (v a : Str) (ha : a ≠ L "src") (k : Nat) (d : PyVal)
+    (hk : (outTriples O)[k]? = some (v, a, d)) (img : Image) (hd : Image.deserialize ver d = .ok img) :
+    ∀ v' b img', (v', b, k, img') ∈ entries s.cells ↔ (v' = v ∧ img' = img ∧ b = a) := by
+  intro v' b img'
+  rw [C10_images_refile doc s h ver hver vt hvt hold payload hp O hO himg]
+  constructor
+  · rintro ⟨a', d', as', hk', hd', hv', hb⟩
+    rw [hk] at hk'
+    injection hk' with hk'
+    injection hk' with e1 hk'
+    injection hk' with e2 e3
+    subst e1 e2 e3
+    rw [hd] at hd'; injection hd' with hd'
+    simp only [targets, ha, ↓reduceIte, List.mem_singleton] at hb
+    exact ⟨rfl, hd'.symm, hb⟩
+  · rintro ⟨rfl, rfl, rfl⟩
+    obtain ⟨as, hmem, _⟩ := mem_outTriples (List.mem_of_getElem? hk)
+    refine ⟨b, d, as, hk, hd, hmem, ?_⟩
+    simp [targets, ha]
+
+/-! ### a concrete 1.1 document: hypotheses are satisfiable, the statement is not vacuous -/
+
+def exImage (path arch : String) (n : Int) : PyVal :=
+  .dict [(L "path", .str (L path)), (L "mtime", .int 1), (L "size", .int 2), (L "volume_id", .none), (L "type", .str (L "dvd")),
+         (L "format", .str (L "iso")), (L "arch", .str (L arch)), (L "disc_number", .int n), (L "disc_count", .int 1),
+         (L "checksums", .dict [(L "md5", .str (L "0"))]), (L "implant_md5", .none), (L "bootable", .bool false),
+         (L "subvariant", .str (L "S"))]
+
+def exTable : Img.OutCells :=
+  [(L "Server", [(L "src", [exImage "Server/source/a.iso" "src" 1]), (L "x86_64", [exImage "Server/x86_64/b.iso" "x86_64" 2]), (L "s390x", [])]),
+   (L "Client", [(L "i386", [exImage "Client/i386/c.iso" "i386" 3])])]
+
+def exImagesDoc : PyVal :=
+  .dict [(L "header", .dict [(L "version", .str (L "1.1")), (L "type", .str (L "productmd.images"))]),
+         (L "payload", .dict [
+           (L "compose", .dict [(L "id", .str (L "F-22-20150522.0")), (L "type", .str (L "production")),
+                                (L "date", .str (L "20150522")), (L "respin", .int 0)]),
+           (L "images", exTable.toPy)])]
+
+/-- the Server source image (object 0) ends up under Server/x86_64 and Server/s390x (an arch key with no image of its
+own), not under Client/i386; no `src` key -/
+example : ((Img.deserialize exImagesDoc).toOption.map fun s => ((entries s.cells).map fun e => (e.1, e.2.1, e.2.2.1), Img.archKeys s.cells))
+    = some ([(L "Server", L "x86_64", 0), (L "Server", L "x86_64", 1), (L "Server", L "s390x", 0), (L "Client", L "i386", 2)],
+            [L "x86_64", L "s390x", L "i386"]) := by
+  decide +kernel
+
+example : Img.OutNodup exTable ∧ (Img.outTriples exTable)[0]? = some (L "Server", L "src", exImage "Server/source/a.iso" "src" 1)
+    ∧ ((Img.versionTuple (.str (L "1.1"))).bind (Img.gateEval Gen.gate_images_Images_deserialize_0)) = .ok true := by
+  refine ⟨⟨by decide, by decide⟩, rfl, by decide +kernel⟩
+
+/-! ## C10_rpms_refile -/
+
+/-- **the re-filed source RPM** (general form).  `doc` is loaded through the 0.3 reader; its manifest is the JSON
+object `vs` (unique keys); variant `v` has the arch table `as`, a `src` table `st` holding the entry `sd ≠ null` for
+the source package `k`, and under the arch `a ≠ src` the non-empty table `rl` of packages built from `k`.
+Then `[v][a][K][K]`, K = canonical N-E:V-R.A of `k`, holds `{sigkey: lower(sd.sigkey), path: sd.path, category:
+"source"}` — path and key FROM THE SRC TABLE ENTRY.
+Hypothesis `hdist` (why `_partial`): every OTHER source-package key of the same `[v][a]` table is non-empty and has a
+canonical form different from K.  Two texts of one package in one table write the same slot and the later wins
+(`C10_rpms_refile_collision_witness`). -/
+theorem C10_rpms_refile_general_partial (doc : PyVal) (m : Mf.Manifest) (h : Mf.deserializeL .rpms doc = .ok m)
+    (ver : PyVal) (l : Nat × Nat) (hh : Mf.headerDeserialize .rpms doc = .ok (ver, .nums l))
+    (hg : Mf.gateHolds Gen.gate_rpms_Rpms_deserialize_0 l = true)
+    (pl : PyVal) (hpl : Mf.getItem doc (Mf.lit "payload") = .ok pl)
+    (vs : Mf.Kvs) (hman : Mf.getItem pl (Mf.lit "manifest") = .ok (.dict vs)) (hvs : (vs.map (·.1)).Nodup)
+    (v : Str) (as : Mf.Kvs) (hv : (v, PyVal.dict as) ∈ vs) (has : (as.map (·.1)).Nodup)
+    (a : Str) (ha : a ≠ L "src") (cell : Mf.Kvs) (hcell : (a, PyVal.dict cell) ∈ as) (hcn : (cell.map (·.1)).Nodup)
+    (st : Mf.Kvs) (hsrc : (L "src", PyVal.dict st) ∈ as) (k : Str) (sd : PyVal) (hst : Mf.lookup st k = some sd) (hsd : sd ≠ .none)
+    (dk : Nvra) (hparse : parseNvra k = .ok dk) (rl : Mf.Kvs) (hrl : rl ≠ []) (hk : (k, PyVal.dict rl) ∈ cell)
+    (hdist : ∀ it ∈ cell, it.1 ≠ k → it.1 ≠ [] ∧ ∀ d', parseNvra it.1 = .ok d' → canonNvra d' ≠ canonNvra dk) :
+    ∃ (p : Str) (sk : Option Str), PyOps.item sd (L "path") = .ok (.str p) ∧ PyOps.item sd (L "sigkey") = .ok (Mf.optStr sk) ∧
+      Mf.getPath m.payload [v, a, canonNvra dk, canonNvra dk]
+        = some (Mf.rpmRecord (sk.map Str.lowerAscii) p (L "source")) := by
+  obtain ⟨pl', hpl', hm⟩ := Mf.deserializeL_legacy doc m h ver l hh hg
+  rw [hpl] at hpl'; injection hpl' with hpl'; subst hpl'
+  exact Mf.manifest03_refile pl m.payload hm vs hman hvs v as hv has a ha cell hcell hcn st hsrc k sd hst hsd dk hparse rl hrl hk hdist
+
+theorem canonNvra_ne_nil (d : Nvra) : canonNvra d ≠ [] := by
+  unfold canonNvra
+  intro e
+  have := congrArg List.length e
+  simp at this
+
+/-- **C10_rpms_refile** — the statement in the property's own words, `[variant][arch][srpm][srpm]`: for a 0.3
+manifest whose source-package keys in `[v][a]` are canonical N-E:V-R.A strings (what the 0.3 writer produced; it
+makes `hdist` of the general form a consequence of the keys being distinct) -/
+theorem C10_rpms_refile (doc : PyVal) (m : Mf.Manifest) (h : Mf.deserializeL .rpms doc = .ok m)
+    (ver : PyVal) (l : Nat × Nat) (hh : Mf.headerDeserialize .rpms doc = .ok (ver, .nums l))
+    (hg : Mf.gateHolds Gen.gate_rpms_Rpms_deserialize_0 l = true)
+    (pl : PyVal) (hpl : Mf.getItem doc (Mf.lit "payload") = .ok pl)
+    (vs : Mf.Kvs) (hman : Mf.getItem pl (Mf.lit "manifest") = .ok (.dict vs)) (hvs : (vs.map (·.1)).Nodup)
+    (v : Str) (as : Mf.Kvs) (hv : (v, PyVal.dict as) ∈ vs) (has : (as.map (·.1)).Nodup)
+    (a : Str) (ha : a ≠ L "src") (cell : Mf.Kvs) (hcell : (a, PyVal.dict cell) ∈ as) (hcn : (cell.map (·.1)).Nodup)
+    (st : Mf.Kvs) (hsrc : (L "src", PyVal.dict st) ∈ as) (k : Str) (sd : PyVal) (hst : Mf.lookup st k = some sd) (hsd : sd ≠ .none)
+    (rl : Mf.Kvs) (hrl : rl ≠ []) (hk : (k, PyVal.dict rl) ∈ cell)
+    (hcanon : ∀ it ∈ cell, ∃ d, parseNvra it.1 = .ok d ∧ canonNvra d = it.1) :
+    ∃ (p : Str) (sk : Option Str), PyOps.item sd (L "path") = .ok (.str p) ∧ PyOps.item sd (L "sigkey") = .ok (Mf.optStr sk) ∧
+      Mf.getPath m.payload [v, a, k, k] = some (Mf.rpmRecord (sk.map Str.lowerAscii) p (L "source")) := by
+  obtain ⟨dk, hparse, hcan⟩ := hcanon (k, .dict rl) hk
+  simp only at hparse hcan
+  have := C10_rpms_refile_general_partial doc m h ver l hh hg pl hpl vs hman hvs v as hv has a ha cell hcell hcn st hsrc k sd hst hsd
+    dk hparse rl hrl hk (by
+      intro it hit hne
+      obtain ⟨d, hp, hc⟩ := hcanon it hit
+      refine ⟨fun e => canonNvra_ne_nil d (hc.trans e), fun d' hp' => ?_⟩
+      rw [hp] at hp'; injection hp' with hp'; subst hp'
+      rw [hc, hcan]; exact hne)
+  rw [hcan] at this
+  exact this
+
+/-! ### concrete 0.3 manifests -/
+
+def exRpm (type path : String) (sigkey : PyVal) : PyVal :=
+  .dict [(L "type", .str (L type)), (L "path", .str (L path)), (L "sigkey", sigkey)]
+
+/-- an unsigned SRPM next to signed binaries, listed under two binary arches; a second variant without `src` -/
+def exManifest03 : PyVal :=
+  .dict [(L "manifest", .dict [
+    (L "Server", .dict [
+      (L "src", .dict [(L "bash-0:4.2-5.src", .dict [(L "path", .str (L "Server/source/bash.src.rpm")), (L "sigkey", .none)])]),
+      (L "x86_64", .dict [(L "bash-0:4.2-5.src", .dict [(L "bash-0:4.2-5.x86_64", exRpm "package" "Server/x86_64/bash.rpm" (.str (L "FD431D51")))])]),
+      (L "s390x", .dict [(L "bash-0:4.2-5.src", .dict [(L "bash-doc-0:4.2-5.noarch", exRpm "package" "Server/s390x/bash-doc.rpm" (.str (L "FD431D51")))])])]),
+    (L "Client", .dict [
+      (L "i386", .dict [(L "bash-0:4.2-5.src", .dict [(L "bash-0:4.2-5.i686", exRpm "package" "Client/i386/bash.rpm" (.none))])])])])]
+
+example :
+    (Mf.manifest03 exManifest03).toOption.map (fun s =>
+      (Mf.archKeys s,
+       Mf.getPath s [L "Server", L "x86_64", L "bash-0:4.2-5.src", L "bash-0:4.2-5.src"] == some (Mf.rpmRecord none (L "Server/source/bash.src.rpm") (L "source")),
+       Mf.getPath s [L "Server", L "s390x", L "bash-0:4.2-5.src", L "bash-0:4.2-5.src"] == some (Mf.rpmRecord none (L "Server/source/bash.src.rpm") (L "source")),
+       (Mf.getPath s [L "Client", L "i386", L "bash-0:4.2-5.src", L "bash-0:4.2-5.src"]).isNone))
+    = some ([L "x86_64", L "s390x", L "i386"], true, true, true) := by
+  decide +kernel
+
+example : ∃ d, parseNvra (L "bash-0:4.2-5.src") = .ok d ∧ canonNvra d = L "bash-0:4.2-5.src" := by
+  refine ⟨⟨some (L "bash"), 0, some (L "4.2"), some (L "5"), some (L "src")⟩, ?_, ?_⟩ <;> decide +kernel
+
+/-- the region excluded by `hdist`: two texts of ONE source package in one table (`…src` and `…src.rpm`), each with its
+own `src` entry — both write `[v][a][K][K]`, the later one stays -/
+def exCollision03 : PyVal :=
+  .dict [(L "manifest", .dict [
+    (L "Server", .dict [
+      (L "src", .dict [(L "bash-0:4.2-5.src", .dict [(L "path", .str (L "first.src.rpm")), (L "sigkey", .none)]),
+                       (L "bash-0:4.2-5.src.rpm", .dict [(L "path", .str (L "second.src.rpm")), (L "sigkey", .none)])]),
+      (L "x86_64", .dict [
+        (L "bash-0:4.2-5.src", .dict [(L "bash-0:4.2-5.x86_64", exRpm "package" "a.rpm" .none)]),
+        (L "bash-0:4.2-5.src.rpm", .dict [(L "bash-doc-0:4.2-5.noarch", exRpm "package" "b.rpm" .none)])])])])]
+
+theorem C10_rpms_refile_collision_witness :
+    (Mf.manifest03 exCollision03).toOption.map (fun s =>
+      Mf.getPath s [L "Server", L "x86_64", L "bash-0:4.2-5.src", L "bash-0:4.2-5.src"] == some (Mf.rpmRecord none (L "second.src.rpm") (L "source")))
+    = some true := by
+  decide +kernel
 
 end PM
